@@ -515,6 +515,17 @@ func (e *c09Env) judge(res c09Result, caseNo int64, phase string, queuePos int) 
 			return
 		}
 	}
+	if b.expect == "success" && !ok && queuePos == 0 && res.t0 != 0 {
+		// "on its way before the deadline" is measured on the library's clock too: the farm's clock starts when its goroutine reads the
+		// request, which on a loaded host can be well after the call started. A reply that left the farm later than 0.9 T after the call
+		// began creates no obligation (a call that is not queued starts its deadline within microseconds of starting).
+		if v, seen := e.timing.Load(res.serial); seen {
+			if s := v.(*c09Timing).send.Load(); s != 0 && time.Duration(s-res.t0) > e.T*9/10 {
+				c.Res.Inconcl(fmt.Sprintf("%s over %s failed; the farm sent the reply %.0f ms after the call began (T=%v; the farm read the request late): not judged", b.name, b.path, float64(s-res.t0)/1e6, e.T))
+				return
+			}
+		}
+	}
 	if b.expect == "success" && !ok {
 		k := key + ":rejected-in-time-reply"
 		if res.fixed && queuePos > 0 {
